@@ -135,7 +135,8 @@ func genBasePlaceholderName(node ast.Node, defaultName string) string {
 func genBasePlaceholderNameFromExpr(expr ast.Node, defaultName string) string {
 	switch expr := expr.(type) {
 	case *ast.GlobalNode:
-		return toUpperUnderscore(expr.Name)
+		// a dotted global is named after its last part, as in official Soy
+		return toUpperUnderscore(expr.Name[strings.LastIndex(expr.Name, ".")+1:])
 	case *ast.DataRefNode:
 		if len(expr.Access) == 0 {
 			return toUpperUnderscore(expr.Key)
